@@ -11,8 +11,9 @@
 //	aac <peaks> x...         belt = Mmr{peaks}; (belt, c) = AppendAndCommitMmr(belt, x) for every item.
 //	   output of the three: one token "<peaks>=<superpeak>" per step, then the aliasing verdict:
 //	   every peak list returned earlier (and the restored list the caller passed in, and the items)
-//	   is re-read at the end of the history and compared with the snapshot taken when it was handed
-//	   out: "alias-ok" or "ALIASED:<step>".
+//	   is re-read at the end of the history — after a further append has been branched off every one of
+//	   them — and compared with the snapshot taken when it was handed out: "alias-ok" or "ALIASED:<step>".
+//	   Restored lists are given spare capacity (as decoded or re-sliced lists may have).
 //	sp <peaks>               SuperPeak(peaks)                     -> hex
 //	P <h> <n> <peaks> <l>    P(peaks, l, n)                       -> peaks, " INPUT-MUTATED" if so
 //	R <i> <peaks> <v>        Replace(peaks, i, v) (v may be "_")  -> peaks, " INPUT-MUTATED" if so
@@ -47,14 +48,27 @@ func parsePeak(t string) types.MmrPeak {
 
 func parsePeaks(t string) []types.MmrPeak {
 	if t == "[]" {
-		return []types.MmrPeak{}
+		return make([]types.MmrPeak, 0, 4)
 	}
 	parts := strings.Split(t, ",")
-	r := make([]types.MmrPeak, len(parts))
+	// spare capacity, as a decoded or re-sliced list may have: an append that writes in place would
+	// then share the caller's backing array
+	r := make([]types.MmrPeak, len(parts), len(parts)+4)
 	for i, p := range parts {
 		r[i] = parsePeak(p)
 	}
 	return r
+}
+
+// branchAll appends a different item to every peak list handed out earlier (a second history
+// branching from each earlier state), so that results sharing memory with them show up in verdict.
+func branchAll(snaps []snap, hf mmr.HashFunction) {
+	for k := range snaps {
+		other := types.OpaqueHash{0xEE, byte(k), byte(k >> 8)}
+		mmr.NewMMRFromPeaks(snaps[k].list, hf).AppendOne(&other)
+		other2 := types.OpaqueHash{0xDD, byte(k)}
+		recent_history.AppendAndCommitMmr(types.Mmr{Peaks: snaps[k].list}, other2)
+	}
 }
 
 func showPeaks(r []types.MmrPeak) string {
@@ -160,6 +174,10 @@ func gen(rng *h.Rng, tier string, emit func(string)) {
 		}
 		emit(strings.Join(nz, " "))
 		st.Inc(kind)
+		if nz[0] == "hist" || nz[0] == "rest" || nz[0] == "aac" {
+			// every item of a history is one intermediate state compared with the model
+			st["states-compared"] += len(strings.Fields(parts[len(parts)-1]))
+		}
 	}
 	// every history length 0..300: one long history exposes every prefix (each intermediate state
 	// is printed), and every length is also run as its own history so that the end-of-history
@@ -222,6 +240,11 @@ func gen(rng *h.Rng, tier string, emit func(string)) {
 		line("aac-long", "aac", randPeaks(rng, n, pat), items(rng, 1+rng.Intn(40), 0))
 		line("sp-long", "sp", randPeaks(rng, n, pat))
 	}
+	// restored EMPTY lists (with spare capacity): the first append must not write into the caller's array
+	for rep := 0; rep < 10*mul; rep++ {
+		line("rest-empty", "rest", "k", "[]", items(rng, 1+rng.Intn(20), 0))
+		line("aac-empty", "aac", "[]", items(rng, 1+rng.Intn(20), 0))
+	}
 	// AppendAndCommitMmr from the empty belt over long histories
 	for rep := 0; rep < 2*mul; rep++ {
 		line("aac-300", "aac", "[]", items(rng, 300, 0))
@@ -259,6 +282,7 @@ func run(input string) string {
 			sp := m.SuperPeak(r)
 			out = append(out, showPeaks(r)+"="+h.Hex(sp[:]))
 		}
+		branchAll(snaps, hf)
 		v := verdict(snaps)
 		for i, p := range itemPtrs {
 			if *p != itemVals[i] {
@@ -278,6 +302,7 @@ func run(input string) string {
 			out = append(out, showPeaks(nb.Peaks)+"="+h.Hex(c[:]))
 			belt = nb
 		}
+		branchAll(snaps, hash.KeccakHash)
 		out = append(out, verdict(snaps))
 		return strings.Join(out, " ")
 	case "sp":
